@@ -50,7 +50,13 @@ def value_class(v):
         return "non-numeric"
 
 
-KIND_OF = {"colvaroff1": "colvar", "colvarrof0": "colvar", "opesad": "opes", "metanogrid": "meta", "opesrep": "opes", "opesreprof0": "opes"}
+_value_class = value_class
+def value_class(v):
+    return "absent" if v == "-" else _value_class(v)
+
+
+KIND_OF = {"harmonicstgk": "harmonic", "harmonicstgc": "harmonic", "harmonicsched": "harmonic", "wallsdec": "harmonicwalls", "linearstg": "linear",
+           "colvaroff1": "colvar", "colvarrof0": "colvar", "opesad": "opes", "metanogrid": "meta", "opesrep": "opes", "opesreprof0": "opes"}
 
 
 def find_block(root, path):
@@ -109,7 +115,7 @@ def python_model(entry, value, mo):
         # the size is validated (model), then the simulator rejects scripted functions anyway
         return "reject " + " ".join(mo.split()[1:])
     if kind == "nnet":
-        ok = re.fullmatch(r"\d+", value) is not None and int(value) < int(fields["outputs"])
+        ok = value == "-" or (re.fullmatch(r"\d+", value) is not None and int(value) < int(fields["outputs"]))
         return ("accept" if ok else "reject") + " initsafe=1 stepsafe=1"
     return mo
 
@@ -234,6 +240,10 @@ def check(run):
     for e in T.ENTRIES:
         for v in values:
             cases.append((e, v))
+        # the keyword OMITTED (its default is used: is the default validated?), in the entry's base configuration, whose
+        # companion keywords make the quantity live (staged changes for targetNumSteps, grids, adaptive sigma, ...)
+        if T.MODEL[e[0]][0] not in ("gridkw", "cvgrid"):
+            cases.append((e, "-"))
     for eid, v in extra_cases:
         if (T.BY_ID[eid], v) not in cases:
             cases.append((T.BY_ID[eid], v))
@@ -242,7 +252,7 @@ def check(run):
     scen = {}
     for e, v in cases:
         root = L.parse_config(e[1])
-        txt = e[1] if v == "-" else L.mutate(root, find_block(root, e[2]), e[3], v)
+        txt = L.remove_keyword(root, find_block(root, e[2]), e[3]) if v == "-" else L.mutate(root, find_block(root, e[2]), e[3], v)
         sc = T.scenario(txt, e[4])
         scen[(e[0], v)] = sc
         for var in variants:
@@ -288,7 +298,7 @@ def check(run):
             n_dead += 1
             report_death(kind, kw, v, var, rr, scen[(eid, v)], " (model: %s)" % mo)
             if not unsafe and not ambiguous:
-                run.mismatch("table:" + eid, "%s=%s (%s)" % (kw, v, var), cls, mo)
+                run.mismatch("table:%s.%s" % (kind, kw), "%s=%s (%s)" % (kw, v, var), cls, mo)
             continue
         if impl == "reject":
             check_survivors(kind, kw, v, var, rr, scen[(eid, v)])
@@ -301,7 +311,7 @@ def check(run):
         if kind == "histrestr" and mverdict == "accept" and "nbins=8" not in mo.split():
             mverdict = "reject"      # refHistogram of the base configuration has 8 values: any other bin count is a list-length error (not modelled)
         if impl != mverdict:
-            run.mismatch("table:" + eid, "%s=%s (%s)" % (kw, v, var), impl, mo)
+            run.mismatch("table:%s.%s" % (kind, kw), "%s=%s (%s)" % (kw, v, var), impl, mo)
     run.notes.append("table sweep: %d runs, %.1f s" % (len(jobs), time.time() - t_start))
     run.sample({"table_case": "%s %s=%s" % (cases[0][0][0], cases[0][0][3], cases[0][1]),
                 "model": mout[0], "impl": res[(cases[0][0][0], cases[0][1], "plain")]["cls"]})
